@@ -1395,3 +1395,496 @@ func (n *normalizer) switchInitRound() bool {
 	}
 	return changed
 }
+
+// paramSplitRound: a parameter of a struct type the reference tree does not have, used in the function only
+// through its fields, becomes one parameter per field; every call site passes the fields of its (side-effect
+// free) argument in field order. The call passes the same values as before — a struct argument is copied
+// at the call in both forms — and the function reads the same fields.
+func (n *normalizer) paramSplitRound() bool {
+	valueUsed := n.funcValueUses()
+	// call sites by callee
+	type csite struct {
+		call     *ast.CallExpr
+		filename string
+	}
+	sites := map[*types.Func][]csite{}
+	for _, f := range n.pp.Syntax {
+		filename := n.fset.File(f.Pos()).Name()
+		ast.Inspect(f, func(x ast.Node) bool {
+			if call, ok := x.(*ast.CallExpr); ok {
+				if callee, _ := n.calleeOf(call); callee != nil {
+					sites[callee.Origin()] = append(sites[callee.Origin()], csite{call, filename})
+				}
+			}
+			return true
+		})
+	}
+	changed := false
+	for _, f := range n.pp.Syntax {
+		filename := n.fset.File(f.Pos()).Name()
+		for _, d := range f.Decls {
+			fd, ok := d.(*ast.FuncDecl)
+			if !ok || fd.Body == nil || fd.Type.Params == nil || fd.Type.TypeParams != nil {
+				continue
+			}
+			fn, _ := n.info.Defs[fd.Name].(*types.Func)
+			if fn == nil || valueUsed[fn] {
+				continue
+			}
+			if fd.Recv != nil {
+				// a method of a generic type: leave
+				if sig, ok := fn.Type().(*types.Signature); ok && sig.RecvTypeParams().Len() > 0 {
+					continue
+				}
+			}
+			argIdx := 0
+			for _, fld := range fd.Type.Params.List {
+				idx := argIdx
+				if len(fld.Names) == 0 {
+					argIdx++
+				} else {
+					argIdx += len(fld.Names)
+				}
+				if len(fld.Names) != 1 || fld.Names[0].Name == "_" {
+					continue
+				}
+				if _, isEll := fld.Type.(*ast.Ellipsis); isEll {
+					continue
+				}
+				pobj, _ := n.info.Defs[fld.Names[0]].(*types.Var)
+				if pobj == nil {
+					continue
+				}
+				named, ok := pobj.Type().(*types.Named)
+				if !ok || named.Obj().Pkg() != n.pp.Types || headTypes[named.Obj().Name()] || named.TypeArgs().Len() > 0 {
+					continue
+				}
+				st, ok := named.Underlying().(*types.Struct)
+				if !ok || st.NumFields() == 0 || st.NumFields() > 8 {
+					continue
+				}
+				okFields := true
+				for i := 0; i < st.NumFields(); i++ {
+					if st.Field(i).Embedded() || st.Field(i).Name() == "_" {
+						okFields = false
+					}
+				}
+				if !okFields {
+					continue
+				}
+				// uses: only p.f
+				var sels []*ast.SelectorExpr
+				whole := false
+				selX := map[*ast.Ident]bool{}
+				ast.Inspect(fd.Body, func(x ast.Node) bool {
+					if se, ok := x.(*ast.SelectorExpr); ok {
+						if id, ok := se.X.(*ast.Ident); ok && n.info.Uses[id] == types.Object(pobj) {
+							if sel := n.info.Selections[se]; sel != nil && sel.Kind() == types.FieldVal && len(sel.Index()) == 1 {
+								sels = append(sels, se)
+								selX[id] = true
+							}
+						}
+					}
+					return true
+				})
+				ast.Inspect(fd.Body, func(x ast.Node) bool {
+					if id, ok := x.(*ast.Ident); ok && n.info.Uses[id] == types.Object(pobj) && !selX[id] {
+						whole = true
+					}
+					return true
+				})
+				if whole {
+					continue
+				}
+				// names
+				taken := map[string]bool{}
+				ast.Inspect(fd, func(x ast.Node) bool {
+					if id, ok := x.(*ast.Ident); ok {
+						taken[id.Name] = true
+					}
+					return true
+				})
+				names := make([]string, st.NumFields())
+				var decls []string
+				good := true
+				for i := 0; i < st.NumFields(); i++ {
+					nm := pobj.Name() + "_" + st.Field(i).Name()
+					for taken[nm] || n.pp.Types.Scope().Lookup(nm) != nil {
+						nm += "_"
+					}
+					taken[nm] = true
+					names[i] = nm
+					tt, ok := n.typeText(st.Field(i).Type(), f, filename)
+					if !ok {
+						good = false
+						break
+					}
+					decls = append(decls, nm+" "+tt)
+				}
+				if !good {
+					continue
+				}
+				// call sites
+				cs := sites[fn]
+				if len(cs) == 0 {
+					continue
+				}
+				for _, s := range cs {
+					if idx >= len(s.call.Args) || s.call.Ellipsis.IsValid() || !syntacticallyPure(s.call.Args[idx]) {
+						good = false
+						break
+					}
+					if _, isLit := ast.Unparen(s.call.Args[idx]).(*ast.BasicLit); isLit {
+						good = false
+						break
+					}
+					if len(s.call.Args) == 1 {
+						// f(g()) with a multi-value g
+						if tv, ok := n.info.Types[s.call.Args[0]]; ok {
+							if _, isTuple := tv.Type.(*types.Tuple); isTuple {
+								good = false
+								break
+							}
+						}
+					}
+					a := s.call.Args[idx]
+					if n.overlaps(s.filename, n.off(a.Pos()), n.off(a.End())) {
+						good = false
+						break
+					}
+				}
+				if !good || n.overlaps(filename, n.off(fld.Pos()), n.off(fld.End())) {
+					continue
+				}
+				for _, se := range sels {
+					if n.overlaps(filename, n.off(se.Pos()), n.off(se.End())) {
+						good = false
+					}
+				}
+				if !good {
+					continue
+				}
+				n.addEdit(filename, n.off(fld.Pos()), n.off(fld.End()), strings.Join(decls, ", "))
+				for _, se := range sels {
+					sel := n.info.Selections[se]
+					n.addEdit(filename, n.off(se.Pos()), n.off(se.End()), names[sel.Index()[0]])
+				}
+				for _, s := range cs {
+					a := s.call.Args[idx]
+					at := n.src(s.filename, a.Pos(), a.End())
+					var parts []string
+					for i := 0; i < st.NumFields(); i++ {
+						parts = append(parts, at+"."+st.Field(i).Name())
+					}
+					n.addEdit(s.filename, n.off(a.Pos()), n.off(a.End()), strings.Join(parts, ", "))
+				}
+				n.notes = append(n.notes, fmt.Sprintf("parameter %s of %s (struct type %s, used by field only) split into one parameter per field", pobj.Name(), fn.Name(), named.Obj().Name()))
+				changed = true
+				break // one parameter per function per round
+			}
+		}
+	}
+	return changed
+}
+
+// zeroText: the zero value of t written out in the given file ("" if it cannot be).
+func (n *normalizer) zeroText(t types.Type, file *ast.File, filename string) string {
+	basic := func(b *types.Basic) string {
+		switch {
+		case b.Info()&types.IsBoolean != 0:
+			return "false"
+		case b.Info()&types.IsString != 0:
+			return `""`
+		case b.Info()&types.IsNumeric != 0:
+			return "0"
+		}
+		return ""
+	}
+	switch x := t.(type) {
+	case *types.Basic:
+		if x.Kind() == types.UnsafePointer {
+			return ""
+		}
+		return basic(x)
+	case *types.Pointer, *types.Slice, *types.Map, *types.Chan, *types.Signature, *types.Interface:
+		return "nil"
+	case *types.Named:
+		tt, ok := n.typeText(t, file, filename)
+		if !ok {
+			return ""
+		}
+		switch u := x.Underlying().(type) {
+		case *types.Basic:
+			if z := basic(u); z != "" {
+				return tt + "(" + z + ")"
+			}
+		case *types.Struct, *types.Array:
+			return tt + "{}"
+		case *types.Pointer, *types.Slice, *types.Map, *types.Chan, *types.Signature, *types.Interface:
+			return "nil"
+		}
+	}
+	return ""
+}
+
+// structAssignRound: a local of a struct type the reference tree does not have, which is only ever read and
+// written field by field, or assigned as a whole from keyed composite literals, becomes one local per field;
+// a whole assignment becomes the parallel assignment of its fields (the operands keep their order; a field the
+// literal leaves out gets its zero value).
+func (n *normalizer) structAssignRound() bool {
+	changed := false
+	for _, f := range n.pp.Syntax {
+		filename := n.fset.File(f.Pos()).Name()
+		for _, d := range f.Decls {
+			fd, ok := d.(*ast.FuncDecl)
+			if !ok || fd.Body == nil || fd.Type.TypeParams != nil {
+				continue
+			}
+			if changed {
+				break
+			}
+			// candidates: locals defined by `v := T{…}` or `var v T`
+			type cand struct {
+				obj   *types.Var
+				named *types.Named
+				st    *types.Struct
+				def   ast.Stmt
+				lit   *ast.CompositeLit // nil for var v T
+			}
+			var cands []*cand
+			parentOf := map[ast.Node]ast.Node{}
+			var stack []ast.Node
+			ast.Inspect(fd.Body, func(x ast.Node) bool {
+				if x == nil {
+					stack = stack[:len(stack)-1]
+					return true
+				}
+				if len(stack) > 0 {
+					parentOf[x] = stack[len(stack)-1]
+				}
+				stack = append(stack, x)
+				return true
+			})
+			newStruct := func(t types.Type) (*types.Named, *types.Struct) {
+				named, ok := t.(*types.Named)
+				if !ok || named.Obj().Pkg() != n.pp.Types || headTypes[named.Obj().Name()] || named.TypeArgs().Len() > 0 {
+					return nil, nil
+				}
+				st, ok := named.Underlying().(*types.Struct)
+				if !ok || st.NumFields() == 0 || st.NumFields() > 8 {
+					return nil, nil
+				}
+				for i := 0; i < st.NumFields(); i++ {
+					if st.Field(i).Embedded() || st.Field(i).Name() == "_" {
+						return nil, nil
+					}
+				}
+				return named, st
+			}
+			keyedLit := func(e ast.Expr, named *types.Named) *ast.CompositeLit {
+				lit, ok := ast.Unparen(e).(*ast.CompositeLit)
+				if !ok || !types.Identical(n.info.TypeOf(lit), named) {
+					return nil
+				}
+				seen := map[string]bool{}
+				for _, el := range lit.Elts {
+					kv, ok := el.(*ast.KeyValueExpr)
+					if !ok {
+						return nil
+					}
+					k, ok := kv.Key.(*ast.Ident)
+					if !ok || seen[k.Name] {
+						return nil
+					}
+					seen[k.Name] = true
+				}
+				return lit
+			}
+			ast.Inspect(fd.Body, func(x ast.Node) bool {
+				switch y := x.(type) {
+				case *ast.AssignStmt:
+					if y.Tok == token.DEFINE && len(y.Lhs) == 1 && len(y.Rhs) == 1 && isListParent(parentOf[y], y) {
+						if id, ok := y.Lhs[0].(*ast.Ident); ok {
+							if obj, _ := n.info.Defs[id].(*types.Var); obj != nil {
+								if named, st := newStruct(obj.Type()); named != nil {
+									if lit := keyedLit(y.Rhs[0], named); lit != nil {
+										cands = append(cands, &cand{obj, named, st, y, lit})
+									}
+								}
+							}
+						}
+					}
+				case *ast.DeclStmt:
+					if gd, ok := y.Decl.(*ast.GenDecl); ok && gd.Tok == token.VAR && len(gd.Specs) == 1 && isListParent(parentOf[y], y) {
+						if vs := gd.Specs[0].(*ast.ValueSpec); len(vs.Names) == 1 && len(vs.Values) == 0 {
+							if obj, _ := n.info.Defs[vs.Names[0]].(*types.Var); obj != nil {
+								if named, st := newStruct(obj.Type()); named != nil {
+									cands = append(cands, &cand{obj, named, st, y, nil})
+								}
+							}
+						}
+					}
+				}
+				return true
+			})
+			for _, cd := range cands {
+				if _, isLabeled := parentOf[cd.def].(*ast.LabeledStmt); isLabeled {
+					continue
+				}
+				// classify every use
+				type wholeAssign struct {
+					as  *ast.AssignStmt
+					idx int
+					lit *ast.CompositeLit
+				}
+				var sels []*ast.SelectorExpr
+				var blanks []*ast.AssignStmt
+				var wholes []wholeAssign
+				good := true
+				nWhole := 0
+				ast.Inspect(fd.Body, func(x ast.Node) bool {
+					id, ok := x.(*ast.Ident)
+					if !ok || n.info.Uses[id] != types.Object(cd.obj) {
+						return true
+					}
+					switch p := parentOf[id].(type) {
+					case *ast.SelectorExpr:
+						if p.X == ast.Expr(id) {
+							if sel := n.info.Selections[p]; sel != nil && sel.Kind() == types.FieldVal && len(sel.Index()) == 1 {
+								sels = append(sels, p)
+								return true
+							}
+						}
+					case *ast.AssignStmt:
+						if p.Tok == token.ASSIGN && len(p.Lhs) == len(p.Rhs) {
+							for i, l := range p.Lhs {
+								if l == ast.Expr(id) {
+									if lit := keyedLit(p.Rhs[i], cd.named); lit != nil && isListParent(parentOf[p], p) {
+										wholes = append(wholes, wholeAssign{p, i, lit})
+										nWhole++
+										return true
+									}
+								}
+							}
+							if len(p.Lhs) == 1 && len(p.Rhs) == 1 && p.Rhs[0] == ast.Expr(id) {
+								if b, ok := p.Lhs[0].(*ast.Ident); ok && b.Name == "_" && isListParent(parentOf[p], p) {
+									blanks = append(blanks, p)
+									return true
+								}
+							}
+						}
+					}
+					good = false
+					return true
+				})
+				if !good || nWhole == 0 {
+					continue // (without whole assignments the single-definition splitting applies)
+				}
+				// one whole assignment of this variable per statement
+				seenAs := map[*ast.AssignStmt]bool{}
+				for _, w := range wholes {
+					if seenAs[w.as] {
+						good = false
+					}
+					seenAs[w.as] = true
+				}
+				// names, types, zero values
+				taken := map[string]bool{}
+				ast.Inspect(fd, func(x ast.Node) bool {
+					if id, ok := x.(*ast.Ident); ok {
+						taken[id.Name] = true
+					}
+					return true
+				})
+				nf := cd.st.NumFields()
+				names, tts, zeros := make([]string, nf), make([]string, nf), make([]string, nf)
+				fieldIdx := map[string]int{}
+				for i := 0; i < nf && good; i++ {
+					fieldIdx[cd.st.Field(i).Name()] = i
+					nm := cd.obj.Name() + "_" + cd.st.Field(i).Name()
+					for taken[nm] || n.pp.Types.Scope().Lookup(nm) != nil {
+						nm += "_"
+					}
+					taken[nm] = true
+					names[i] = nm
+					tt, ok := n.typeText(cd.st.Field(i).Type(), f, filename)
+					z := n.zeroText(cd.st.Field(i).Type(), f, filename)
+					if !ok || z == "" {
+						good = false
+					}
+					tts[i], zeros[i] = tt, z
+				}
+				if !good {
+					continue
+				}
+				// the literal's fields as (targets, values), in the literal's order, then the fields left out
+				spread := func(lit *ast.CompositeLit) ([]string, []string) {
+					var ts, vs []string
+					done := map[int]bool{}
+					for _, el := range lit.Elts {
+						kv := el.(*ast.KeyValueExpr)
+						i := fieldIdx[kv.Key.(*ast.Ident).Name]
+						done[i] = true
+						ts = append(ts, names[i])
+						vs = append(vs, n.src(filename, kv.Value.Pos(), kv.Value.End()))
+					}
+					for i := 0; i < nf; i++ {
+						if !done[i] {
+							ts = append(ts, names[i])
+							vs = append(vs, zeros[i])
+						}
+					}
+					return ts, vs
+				}
+				type ed struct {
+					s, e int
+					t    string
+				}
+				var eds []ed
+				// declaration
+				var decl strings.Builder
+				for i := 0; i < nf; i++ {
+					fmt.Fprintf(&decl, "var %s %s; _ = %s; ", names[i], tts[i], names[i])
+				}
+				if cd.lit != nil && len(cd.lit.Elts) > 0 {
+					ts, vs := spread(cd.lit)
+					decl.WriteString(strings.Join(ts, ", ") + " = " + strings.Join(vs, ", "))
+				}
+				eds = append(eds, ed{n.off(cd.def.Pos()), n.off(cd.def.End()), decl.String()})
+				for _, se := range sels {
+					eds = append(eds, ed{n.off(se.Pos()), n.off(se.End()), names[n.info.Selections[se].Index()[0]]})
+				}
+				for _, b := range blanks {
+					eds = append(eds, ed{n.off(b.Pos()), n.off(b.End()), strings.Repeat("_, ", nf-1) + "_ = " + strings.Join(names, ", ")})
+				}
+				for _, w := range wholes {
+					ts, vs := spread(w.lit)
+					eds = append(eds, ed{n.off(w.as.Lhs[w.idx].Pos()), n.off(w.as.Lhs[w.idx].End()), strings.Join(ts, ", ")})
+					eds = append(eds, ed{n.off(w.as.Rhs[w.idx].Pos()), n.off(w.as.Rhs[w.idx].End()), strings.Join(vs, ", ")})
+				}
+				// selectors inside a literal that is itself rewritten would overlap: refuse
+				sort.Slice(eds, func(i, j int) bool { return eds[i].s < eds[j].s })
+				for i := 1; i < len(eds); i++ {
+					if eds[i].s < eds[i-1].e {
+						good = false
+					}
+				}
+				for _, e := range eds {
+					if n.overlaps(filename, e.s, e.e) {
+						good = false
+					}
+				}
+				if !good {
+					continue
+				}
+				for _, e := range eds {
+					n.addEdit(filename, e.s, e.e, e.t)
+				}
+				n.notes = append(n.notes, fmt.Sprintf("struct local %s of %s (type %s), assigned as a whole from literals, split into one local per field", cd.obj.Name(), fd.Name.Name, cd.named.Obj().Name()))
+				changed = true
+				break
+			}
+		}
+	}
+	return changed
+}
